@@ -79,7 +79,8 @@ def run_case(case):
 
 def cases(tier, seed):
     out = []
-    Ns = list(range(1, 41)) if tier == "quick" else list(range(1, 81)) + [100, 272]
+    # 113 is the first randomQ size with a cell that receives no helper point; 420 exceeds 838 double-cover cells
+    Ns = list(range(1, 41)) + [113] if tier == "quick" else list(range(1, 81)) + [100, 113, 150, 272, 420]
     for alg in ("cube4D", "randomQ"):
         for N in Ns:
             out.append({"alg": alg, "N": N, "dim": 4, "mc_seed": seed})
@@ -104,7 +105,7 @@ def run(ctx):
                 "distinct_nontrivial = grids with N >= 4",
         "samples": collect_samples([f"{c['alg']}_{c['N']}" for c in cs], 6),
         "worst_cell_deviation": max(r.get("worst", 0) for r in res), "worst_sum_deviation": max(r.get("sum_dev", 0) for r in res),
-        "exhaustive": True, "bound": {"N": "1..40" if ctx.tier == "quick" else "1..80, 100, 272"},
+        "exhaustive": True, "bound": {"N": "1..40, 113" if ctx.tier == "quick" else "1..80, 100, 113, 150, 272, 420"},
     }
     rep.assumptions = ["oracle is statistical by the property's own definition; a cell is flagged only beyond 30 % + 5 "
                        "standard errors", "VERIF_SEED selects the Monte-Carlo stream only"]
